@@ -4,14 +4,19 @@
    exactly that integer, and every integer the printer emits reads back.
    Floats: on the fast path (significand below 2^53, |exponent| <= 22, feature
    fast-float-parsing) the one IEEE operation performed gives the correctly
-   rounded double, stated against Flocq's real-number semantics. Radix
-   prefixes, over-long integers, the literal-to-(significand, exponent) step,
-   the 2^-50 bound off the fast path and the build without fast-float-parsing
-   are decided by the correspondence and the oracle only (theorems.json). *)
+   rounded double, stated against Flocq's real-number semantics; and every
+   literal digits[.digits][(e|E)[+|-]digits] with a fraction or an exponent
+   whose digits fit in a u64 reaches f64_from_parts with exactly the
+   significand and exponent it denotes (both feature builds), so that on the
+   fast path the token read is the correctly rounded double of the literal's
+   value (C05_decimal_literal_parts, C05_decimal_literal_fast_correct). Radix prefixes, over-long integers, the
+   2^-50 bound off the fast path, out-of-range rejection and the correctness
+   of str::parse (the build without fast-float-parsing) are decided by the
+   correspondence and the oracle only (theorems.json). *)
 From Coq Require Import ZArith Reals SpecFloat.
 From Flocq Require Import Core BinarySingleNaN.
 Require Import Base Value Float PrintOptions Printer ParseOptions Utf8 Reader Scan Num NumberOps Parser.
-Require Import ReaderProofs TokenProofs NumTokenProofs ClingerProofs.
+Require Import ReaderProofs TokenProofs NumTokenProofs DecimalProofs RadixProofs ClingerProofs FloatLiteralProofs.
 Local Open Scope N_scope.
 
 (* unsigned decimal digit strings *)
@@ -70,6 +75,97 @@ Theorem C05_fast_path_correctly_rounded : forall std_parse pos sig e r,
     B2R b = round radix2 (SpecFloat.fexp 53 1024) ZnearestE (dec_value sig e).
 Proof. exact from_parts_fast. Qed.
 Print Assumptions C05_fast_path_correctly_rounded.
+
+(* Integer literals with a radix prefix: "#" (b|o|d|x) [+|-] digits, the digits
+   valid in that radix (0-9 and, for #x, a-f / A-F in either case), any number
+   of leading zeros, positional value rfold R 0 digits at most 2^64-1: the token
+   is exactly that integer, negated after "-" (int_result: a PosInt, a NegInt
+   down to -2^63, beyond that the float nearest the negated value). *)
+Theorem C05_radix_integers : forall alpha fast std_parse R fuel r sg d ds rest,
+  radix_ok R -> (S (length (d :: ds)) < fuel)%nat ->
+  all_rdigits R (d :: ds) -> delim_ok rest -> rfold R 0 (d :: ds) <= u64_MAX ->
+  at_bytes r (35 :: radix_letter R :: sign_text sg ++ (d :: ds) ++ rest) -> peeked r ->
+  exists r', parse_token default_ro alpha fast std_parse fuel 35 r =
+               (Ok (TNumber (int_result (sign_pos sg) (rfold R 0 (d :: ds)))), r') /\
+             at_bytes r' rest /\ rk r' = rk r.
+Proof. exact tok_radix_int. Qed.
+Print Assumptions C05_radix_integers.
+
+(* "#x-fF" is -255, "#b+101" is 5, "#o777" is 511 *)
+Example C05_radix_nonvacuous :
+  radix_ok 16 /\ all_rdigits 16 (s2b "fF") /\ rfold 16 0 (s2b "fF") = 255 /\
+  35 :: radix_letter 16 :: sign_text (Some false) ++ s2b "fF" = s2b "#x-fF" /\
+  from_trait default_ro (fun _ => true) true dec_to_f64 SrcSlice (bytes_events (s2b "#x-fF")) = POk (Number (NegInt (-255))) /\
+  from_trait default_ro (fun _ => true) true dec_to_f64 SrcIo (bytes_events (s2b "#b+101")) = POk (Number (PosInt 5)) /\
+  from_trait default_ro (fun _ => true) true dec_to_f64 SrcStr (bytes_events (s2b "#o777")) = POk (Number (PosInt 511)).
+Proof.
+  split; [right; right; right; reflexivity|].
+  split; [repeat constructor; [exists 15|exists 15]; split; reflexivity|].
+  repeat split; vm_compute; reflexivity.
+Qed.
+
+(* A decimal literal with a fraction and/or an exponent:
+     lit_text ip fs ex = ip ++ ["." fs] ++ [(e|E) [+|-] es]
+   with ip, fs, es digit strings (ip and es non-empty; fs empty means no
+   fraction part). Its digits, read as one integer, are lit_sig ip fs; its
+   exponent is the written one minus the number of fraction digits.
+   In both feature builds the number routine hands exactly these two numbers
+   to f64_from_parts, whenever the digits fit in a u64 and the written
+   exponent in an i32 (lit_exp saturates to i32 as the code does): *)
+Theorem C05_decimal_literal_parts : forall fast std_parse fuel r pos d ip fs ex rest,
+  all_digits (d :: ip) -> all_digits fs -> is_float_lit fs ex -> exp_ok ex -> lit_sig (d :: ip) fs <= u64_MAX ->
+  (S (length (lit_text (d :: ip) fs ex)) < fuel)%nat -> delim_ok rest ->
+  at_bytes r (lit_text (d :: ip) fs ex ++ rest) ->
+  exists r', parse_num_literal fast std_parse fuel 10 pos r =
+             (x <- f64_from_parts fast std_parse pos (lit_sig (d :: ip) fs) (lit_exp fs ex) ;; ret (Float x)) r' /\
+             at_bytes r' rest /\ rk r' = rk r.
+Proof. exact num_literal_decimal. Qed.
+Print Assumptions C05_decimal_literal_parts.
+
+(* With fast-float-parsing, when the digits fit in 2^53 and the denoted
+   exponent is at most 22 in magnitude, the token read from the text is the
+   double nearest (ties to even) to the real number the literal denotes,
+   dec_value (digits) (exponent) = digits * 10^exponent. *)
+Theorem C05_decimal_literal_fast_correct : forall alpha std_parse fuel r d ip fs ex rest,
+  all_digits (d :: ip) -> all_digits fs -> is_float_lit fs ex -> exp_ok ex ->
+  (Z.of_N (lit_sig (d :: ip) fs) < 2 ^ 53)%Z -> (Z.abs (lit_exp_exact fs ex) <= 22)%Z ->
+  (S (length (lit_text (d :: ip) fs ex)) < fuel)%nat -> delim_ok rest ->
+  at_bytes r (lit_text (d :: ip) fs ex ++ rest) ->
+  exists (b : binary_float 53 1024) r',
+    parse_token default_ro alpha true std_parse fuel d r = (Ok (TNumber (Float (B2SF b))), r') /\
+    at_bytes r' rest /\ rk r' = rk r /\ is_finite b = true /\
+    B2R b = round radix2 (SpecFloat.fexp 53 1024) ZnearestE (dec_value (lit_sig (d :: ip) fs) (lit_exp_exact fs ex)).
+Proof. exact tok_decimal_fast. Qed.
+Print Assumptions C05_decimal_literal_fast_correct.
+
+(* the same after a sign; "-" negates the rounded magnitude *)
+Theorem C05_signed_decimal_literal_fast_correct : forall alpha std_parse fuel r sg d ip fs ex rest,
+  sg = 43 \/ sg = 45 ->
+  all_digits (d :: ip) -> all_digits fs -> is_float_lit fs ex -> exp_ok ex ->
+  (Z.of_N (lit_sig (d :: ip) fs) < 2 ^ 53)%Z -> (Z.abs (lit_exp_exact fs ex) <= 22)%Z ->
+  (S (S (length (lit_text (d :: ip) fs ex))) < fuel)%nat -> delim_ok rest ->
+  at_bytes r (sg :: lit_text (d :: ip) fs ex ++ rest) -> peeked r ->
+  exists (b : binary_float 53 1024) r',
+    parse_token default_ro alpha true std_parse fuel sg r =
+      (Ok (TNumber (Float (if sg =? 43 then B2SF b else f64_neg (B2SF b)))), r') /\
+    at_bytes r' rest /\ rk r' = rk r /\ is_finite b = true /\
+    B2R b = round radix2 (SpecFloat.fexp 53 1024) ZnearestE (dec_value (lit_sig (d :: ip) fs) (lit_exp_exact fs ex)).
+Proof. exact tok_signed_decimal_fast. Qed.
+Print Assumptions C05_signed_decimal_literal_fast_correct.
+
+(* the hypotheses are satisfiable: "31.4159E-1" has digits 314159 and exponent -1 - 4 = -5 *)
+Example C05_decimal_nonvacuous :
+  let ip := s2b "1" in let fs := s2b "4159" in let ex := Some (69, Some false, s2b "1") in
+  lit_text (51 :: ip) fs ex = s2b "31.4159E-1" /\
+  all_digits (51 :: ip) /\ all_digits fs /\ is_float_lit fs ex /\ exp_ok ex /\
+  lit_sig (51 :: ip) fs = 314159 /\ lit_exp_exact fs ex = (-5)%Z /\ lit_exp fs ex = (-5)%Z /\
+  from_trait default_ro (fun _ => true) true dec_to_f64 SrcIo (bytes_events (s2b "31.4159E-1")) =
+    POk (Number (Float (f64_of_bits 4614256650576692846))).
+Proof.
+  cbv zeta. split; [reflexivity|]. split; [repeat constructor|]. split; [repeat constructor|].
+  split; [left; discriminate|]. split; [cbn; repeat split; try (right; reflexivity); try discriminate; repeat constructor; unfold i32_MAX; cbn; lia|].
+  split; [reflexivity|]. split; [reflexivity|]. split; [reflexivity|]. vm_compute. reflexivity.
+Qed.
 
 (* the theorem is about what the model computes: 0.3 = 3 / 10^1 *)
 Example C05_nonvacuous :
